@@ -1,4 +1,4 @@
-import GqlProofs.Schema.NoPanic
+import GqlProofs.Schema.Perm
 import GqlProofs.Schema.Examples
 /-
   C17 — schema loading is order- and split-independent.
@@ -53,3 +53,34 @@ theorem C17_verdict_perm_counterexample :
   simp only [Examples.orderUT, Examples.orderTU, Examples.doc]
   apply List.Perm.append_left
   exact List.Perm.cons _ (List.Perm.cons _ (List.Perm.swap _ _ _))
+
+/- ------------------------------------------------------------------ permuting the definitions -/
+
+theorem isOk_iff (r : LoadResult) : r.isOk = true ↔ ∃ s, r = .ok s := by
+  cases r <;> simp [LoadResult.isOk]
+
+/-- **order independence of the verdict**: if `sd'` is `sd` with its type definitions permuted
+    (`DefsPerm`: `definitions` permuted arbitrarily; `extensions`, `directives`, `schema`, `schemaExt`
+    unchanged), then `sd'` loads iff `sd` loads.  (The *kind* of failure — error vs panic — and the
+    reported error may differ: `C17_verdict_perm_counterexample`.) -/
+theorem C17_ok_perm_definitions {sd sd' : SchemaDoc} (hp : DefsPerm sd sd') : (load sd').isOk = (load sd).isOk := by
+  rw [Bool.eq_iff_iff, isOk_iff, isOk_iff]
+  constructor
+  · intro ⟨s, h⟩; exact load_ok_of_defsPerm hp.symm h
+  · intro ⟨s, h⟩; exact load_ok_of_defsPerm hp h
+
+/-- **order independence of the result**: the two loaded schemas have the same roots, schema
+    directives, description and directive definitions, the same types up to the order of the map
+    entries, and the same `PossibleTypes` / `Implements` lists up to order -/
+theorem C17_schema_perm_definitions {sd sd' : SchemaDoc} (hp : DefsPerm sd sd') {s s' : Schema}
+    (h : load sd = .ok s) (h' : load sd' = .ok s') : SchemaEquiv s s' := by
+  obtain ⟨s'', h'', E⟩ := load_defsPerm_equiv hp h
+  rw [h'] at h''
+  simp only [LoadResult.ok.injEq] at h''
+  subst h''
+  exact E
+
+/-- non-vacuity: a loading document and a proper permutation of it -/
+example : DefsPerm Examples.rootsAB { Examples.rootsAB with definitions := Examples.rootsAB.definitions.reverse } ∧
+    (load Examples.rootsAB).isOk = true :=
+  ⟨⟨List.reverse_perm _, rfl, rfl, rfl, rfl⟩, by decide⟩
